@@ -9,7 +9,7 @@ from sa.pyindex import get_index
 from sa.report import PROP_ASSUMPTIONS, PROP_EXPLANATION, rule
 from sa.symex import U, call_name, call_tail, paths_of
 
-from .c19 import find_re_call, group_uses, pattern_text
+from .c19 import failed_match, find_re_call, group_uses, pattern_text
 from .common import fn_where
 
 PROP_EXPLANATION["C20"] = (
@@ -87,7 +87,7 @@ def r20_2(ctx):
     idx = get_index(ctx.env)
     fi = idx.func(f"{PP}.patch_macros")
     w = fn_where(idx, fi)
-    pats = [pattern_text(c.args[0]) for c in find_re_call(fi.node, names=("search", "match"))]
+    pats = [pattern_text(c.args[0]) for c in find_re_call(fi.node, names=("search", "match"), idx=idx, cls=PP)]
     name_pats = [p for p in pats if p and "(" in p]
     ctx.check("one name regex for patches and originals", len(name_pats) == 2 and len(set(name_pats)) == 1 and name_pats[0] == r"^#define\s+([\w_]*).*", r"^#define\s+([\w_]*).* at both sites", str(name_pats), w)
     ps = paths_of(fi.node)
@@ -135,7 +135,7 @@ def r20_3(ctx):
     idx = get_index(ctx.env)
     fi = idx.func(f"{PP}.replace_do_while_0")
     w = fn_where(idx, fi)
-    calls = find_re_call(fi.node, names=("search", "match", "sub", "fullmatch"))
+    calls = find_re_call(fi.node, names=("search", "match", "sub", "fullmatch"), idx=idx, cls=PP)
     pats = [pattern_text(c.args[0]) for c in calls]
     ctx.check("one pattern, used for the first match and for every further round", len(pats) == 2 and len(set(pats)) == 1 and all(c.func.attr == "search" for c in calls), "2 x re.search(<same pattern>)", str([(c.func.attr, p) for c, p in zip(calls, pats)]), w)
     ctx.need(pats and pats[0], "replace_do_while_0: pattern not found")
@@ -164,7 +164,13 @@ def r20_3(ctx):
         ctx.check("next round searches the rebuilt line", nxt is not None and isinstance(nxt, ast.Call) and U(nxt.args[1]) == line_var, "m = re.search(pattern, <rebuilt line>)", U(nxt)[:70] if nxt is not None else "?", w)
     ps = paths_of(fi.node)
     rets = [p for p in ps if p.outcome == "return"]
-    nomatch = [p for p in rets if any(not pol and "re.search" in U(g) for g, pol in p.guards) and not any(e.kind == "loop" for e in p.events)]
+    param = fi.node.args.args[0].arg
+    unchanged = [p for p in rets if p.value is not None and U(p.value) == param]
+    is_rx = lambda g: isinstance(g, ast.Call) and call_tail(g) in ("search", "match", "fullmatch")
+    unlicensed = [p for p in unchanged if not any(failed_match(g, pol, is_rx) for g, pol in p.guards)]
+    ctx.check("the input is returned unchanged only when the stripper regex itself finds nothing", not unlicensed, "every `return <input>` path is guarded by a failed regex search",
+              "; ".join(p.guard_text()[:80] for p in unlicensed) or "ok", w)
+    nomatch = [p for p in rets if any(failed_match(g, pol, is_rx) for g, pol in p.guards) and not any(e.kind == "loop" for e in p.events)]
     ctx.check("a line without the pattern is returned unchanged", len(nomatch) == 1 and U(nomatch[0].value) == fi.node.args.args[0].arg, "return code", str([U(p.value)[:40] for p in nomatch]), w)
 
 
